@@ -53,6 +53,13 @@ def shr (bits : Nat) (prof : Profile) (x n : Nat) : Outcome Nat :=
 def shlI (ty : IntTy) (prof : Profile) (x : Int) (n : Nat) : Outcome Int :=
   if n ≥ ty.bits then (if prof.oc then .panic .arith else .ok (ty.cast (x * 2 ^ (n % ty.bits)))) else .ok (ty.cast (x * 2 ^ n))
 
+/-- `x >> n` on a signed type: arithmetic shift (floor division by `2^n`); overflow check on the shift amount only -/
+def shrI (ty : IntTy) (prof : Profile) (x : Int) (n : Nat) : Outcome Int :=
+  if n ≥ ty.bits then (if prof.oc then .panic .arith else .ok (x >>> (n % ty.bits))) else .ok (x >>> n)
+
+/-- `trailing_zeros` of a signed value: of its two's-complement bit pattern -/
+def tzI (ty : IntTy) (x : Int) : Nat := trailingZeros ty.bits (x % 2 ^ ty.bits).toNat
+
 /-- `f64::is_infinite`, `f64::is_nan`, `f32::…` on the bit pattern (IEEE 754 binary64 / binary32 encodings) -/
 def f64_is_infinite (b : Nat) : Bool := b % 2 ^ 63 == 0x7ff0000000000000
 def f64_is_nan (b : Nat) : Bool := b % 2 ^ 63 > 0x7ff0000000000000
